@@ -109,6 +109,7 @@ Eval(i) ==
               /\ PrintT(<<"STREAM", rec.h, rec.streams[q].sid, rec.streams[q].live, rec.streams[q].polls, Len(rec.streams[q].got),
                           Len(WantStream(HistStart(i, rec.h) + 1, i, rec.h, rec.streams[q].sid))>>)
               /\ IF rec.streams[q].polls > 1 THEN PrintT(<<"PROP", <<"C04", "StreamIsEntitledReplies">>, rec.h, rec.i>>) ELSE TRUE
+              /\ IF ~rec.streams[q].live THEN PrintT(<<"PROP", <<"C17", "StreamIsEntitledReplies">>, rec.h, rec.i>>) ELSE TRUE
   ELSE IF rec.k = "expire"
   THEN (* C17 ExpireExact: exactly the sessions with Reply = 0 idle for longer than the expiration *)
        LET want == {rec.ages[j][1] : j \in {q \in DOMAIN rec.ages : rec.ages[q][2] = 0 /\ rec.ages[q][3] > 0}} IN
